@@ -305,8 +305,15 @@ def reverse_map(ctx, ents):
     f = ctx.repo.func("serializer.py", "htmlentityreplace_errors")
     # the text written for one code point, decided by evaluating the emitting loop's body for a code point whose reverse-map
     # entry ends in ';', one whose entry does not, and one without an entry
-    emit_loop = [n for n in ast.walk(f.node) if isinstance(n, ast.For) and isinstance(n.target, ast.Name) and
-                 any(isinstance(x, ast.Call) and norm(x.func) == "_encode_entity_map.get" for x in ast.walk(n))]
+    def uses_map(n, depth=0):
+        for x in ast.walk(n):
+            if isinstance(x, ast.Name) and x.id == "_encode_entity_map":
+                return True
+            if depth == 0 and isinstance(x, ast.Call) and isinstance(x.func, ast.Name) and x.func.id in f.module.functions and \
+                    uses_map(f.module.functions[x.func.id].node, 1):
+                return True
+        return False
+    emit_loop = [n for n in ast.walk(f.node) if isinstance(n, ast.For) and isinstance(n.target, ast.Name) and uses_map(n)]
     if len(emit_loop) != 1:
         r.idiom("R14.5", False, "emitted-form", f.where, "the loop that writes the replacement was not found")
     else:
